@@ -102,9 +102,14 @@ def _render_feature_value(feature_value: any, fs_id_to_anchor: Dict[int, str], a
     elif isinstance(feature_value, list):
         return [_render_feature_value(e, fs_id_to_anchor, active_arrays) for e in feature_value]
     elif _is_array_fs(feature_value):
+        anchor = fs_id_to_anchor.get(feature_value.xmiID)
+        if active_arrays and anchor is not None:
+            # An array which is an element of another array is listed on its own and is referred to by its anchor;
+            # expanding it in place again would repeat shared arrays over and over (and never end for cycles)
+            return anchor
         if id(feature_value) in active_arrays:
             # An array which (transitively) contains itself is referred to by its anchor instead of its elements
-            return fs_id_to_anchor.get(feature_value.xmiID)
+            return anchor
         if feature_value.elements is not None:
             active_arrays = active_arrays + (id(feature_value),)
             return [_render_feature_value(e, fs_id_to_anchor, active_arrays) for e in feature_value.elements]
